@@ -199,19 +199,27 @@ pub fn run(cx: &mut Cx) {
         ensure!(lo <= x && x < hi, "random_range({lo}..{hi}) = {x}");
         Ok(())
     });
-    cx.check("core.rs::RngCore::random_bool (p a probability, as the comment demands)", |rng| {
+    // `requires f64_is_probability(p)`: uninterpreted in Verus, read as 0.0 <= p <= 1.0 (what rand checks)
+    cx.check("core.rs::RngCore::random_bool (f64_is_probability(p) read as 0.0 <= p <= 1.0)", |rng| {
         let mut r = rand::rngs::SmallRng::seed_from_u64(rng.u64());
-        let p = match rng.below(4) { 0 => 0.0, 1 => 1.0, _ => (rng.u64() >> 11) as f64 / (1u64 << 53) as f64 };
-        ensure!(panics(|| r.random_bool(p)).is_none(), "random_bool({p}) panics");
+        let p = match rng.below(6) {
+            0 => 0.0,
+            1 => 1.0,
+            2 => f64::MIN_POSITIVE,
+            3 => 1.0 - f64::EPSILON / 2.0,
+            _ => (rng.u64() >> 11) as f64 / (1u64 << 53) as f64,
+        };
+        ensure!((0.0..=1.0).contains(&p), "generator: {p} is not a probability");
+        ensure!(panics(|| r.random_bool(p)).is_none(), "random_bool({p}) panics inside the precondition");
         Ok(())
     });
-    // The stub trait method has NO `requires`: a verified caller may pass any f64.
-    cx.check_n("core.rs::RngCore::random_bool (no requires in the stub: total on every f64?)", 64, |rng| {
+    cx.check_n("core.rs::RngCore::random_bool (requires is tight: p outside [0, 1] or NaN panics)", 256, |rng| {
         let mut r = rand::rngs::SmallRng::seed_from_u64(rng.u64());
-        let p = match rng.below(4) { 0 => 1.5, 1 => -0.25, 2 => f64::NAN, _ => f64::from_bits(rng.u64()) };
-        if let Some(msg) = panics(|| r.random_bool(p)) {
-            return Err(format!("random_bool({p}) panics in rand 0.9 ({msg:?}); the stub method has no precondition"));
+        let p = match rng.below(6) { 0 => 1.0 + f64::EPSILON, 1 => -f64::MIN_POSITIVE, 2 => f64::NAN, 3 => f64::INFINITY, _ => f64::from_bits(rng.u64()) };
+        if (0.0..=1.0).contains(&p) {
+            return Ok(());
         }
+        ensure!(panics(|| r.random_bool(p)).is_some(), "random_bool({p}) does not panic: the precondition could be weaker");
         Ok(())
     });
     cx.check("core.rs::Exp::sample (f64_nonneg read as: >= 0 and not NaN)", |rng| {
@@ -229,8 +237,86 @@ pub fn run(cx: &mut Cx) {
         Ok(())
     });
 
+    // =============================================================== nettable_std.rs
+    cx.want(&["some", "none"]).check("nettable_std.rs::Option::or_else", |rng| {
+        let o: Option<u32> = if rng.bool() { Some(rng.u32()) } else { None };
+        let fr: Option<u32> = if rng.bool() { Some(rng.u32()) } else { None };
+        let mut called = 0;
+        let r = o.or_else(|| {
+            called += 1;
+            fr
+        });
+        if o.is_some() {
+            hit("some");
+            ensure!(r == o && called == 0, "{o:?}.or_else(..) = {r:?} (closure called {called}x)");
+        } else {
+            hit("none");
+            ensure!(r == fr && called == 1, "None.or_else(|| {fr:?}) = {r:?} (closure called {called}x)");
+        }
+        Ok(())
+    });
+    cx.check("nettable_std.rs::Option<&T>::copied", |rng| {
+        let x = rng.u32();
+        let o: Option<&u32> = if rng.bool() { Some(&x) } else { None };
+        let exp = match o { Some(y) => Some(*y), None => None };
+        ensure!(o.copied() == exp, "{o:?}.copied() = {:?}", o.copied());
+        Ok(())
+    });
+    cx.want(&["true", "false"]).check("nettable_std.rs::<[T]>::contains", |rng| {
+        let v = rng.small_vec(12, 12);
+        let x = rng.u8() % 12;
+        let r = v[..].contains(&x);
+        hit(if r { "true" } else { "false" });
+        ensure!(r == v.iter().any(|y| *y == x), "{v:?}.contains({x}) = {r}");
+        Ok(())
+    });
+
+    // =============================================================== netclose_task.rs / nettcp_task.rs: Waker
+    // will_wake is modelled as an exact function of the two wakers (`waker_same(a, b)`, resp. `a.id() == b.id()`), and
+    // clone as identity (`r == *self`, resp. `r.id() == self.id()`); Context::waker() is a function of the context.
+    // Executable content: will_wake is an equivalence relation, a clone is in the class of its original, and a
+    // context hands out a waker of the class it was built from.  (std documents will_wake as best-effort.)
+    {
+        use std::sync::Arc;
+        use std::task::{Context, Wake, Waker};
+        struct W(#[allow(dead_code)] u32);
+        impl Wake for W {
+            fn wake(self: Arc<Self>) {}
+        }
+        let rt = tokio::runtime::Builder::new_current_thread().build().unwrap();
+        // wakers of two different tokio tasks, and of the block_on root
+        let task_waker = |rt: &tokio::runtime::Runtime| rt.block_on(async { tokio::spawn(std::future::poll_fn(|cx| std::task::Poll::Ready(cx.waker().clone()))).await.unwrap() });
+        let root_waker: Waker = rt.block_on(std::future::poll_fn(|cx| std::task::Poll::Ready(cx.waker().clone())));
+        let (a, b) = (Arc::new(W(1)), Arc::new(W(2)));
+        let pool: Vec<Waker> = vec![
+            Waker::noop().clone(),
+            Waker::from(a.clone()),
+            Waker::from(a.clone()),
+            Waker::from(b.clone()),
+            task_waker(&rt),
+            task_waker(&rt),
+            root_waker,
+        ];
+        for name in ["netclose_task.rs::Waker::{will_wake, clone} + Context::waker", "nettcp_task.rs::Waker::{will_wake, clone} + Context::waker"] {
+            cx.want(&["same", "different"]).check(name, |rng| {
+                let (x, y, z) = (&pool[rng.below(pool.len())], &pool[rng.below(pool.len())], &pool[rng.below(pool.len())]);
+                hit(if x.will_wake(y) { "same" } else { "different" });
+                ensure!(x.will_wake(x), "will_wake is not reflexive");
+                ensure!(x.will_wake(y) == y.will_wake(x), "will_wake is not symmetric");
+                ensure!(!(x.will_wake(y) && y.will_wake(z)) || x.will_wake(z), "will_wake is not transitive");
+                let c = x.clone();
+                ensure!(c.will_wake(x) && x.will_wake(&c), "a clone does not will_wake its original");
+                ensure!(c.will_wake(y) == x.will_wake(y) && y.will_wake(&c) == y.will_wake(x), "clone changes the will_wake class");
+                let cx2 = Context::from_waker(x);
+                ensure!(cx2.waker().will_wake(x) && cx2.waker().will_wake(cx2.waker()), "Context::waker() is not the context's waker");
+                Ok(())
+            });
+        }
+    }
+
     // =============================================================== ports_std.rs
-    cx.check("ports_std.rs::RangeInclusive::{start, end}", |rng| {
+    // nettable_std.rs states the same through uninterpreted ri_start / ri_end ("the bounds the range was built with")
+    cx.check_in(&["ports_std.rs", "nettable_std.rs"], "RangeInclusive::{start, end}", |rng| {
         let (a, b) = (rng.u16(), rng.u16()); // empty ranges (a > b) included
         let r = a..=b;
         ensure!(*r.start() == a && *r.end() == b, "({a}..={b}).start/end = {}/{}", r.start(), r.end());
@@ -281,18 +367,29 @@ pub fn run(cx: &mut Cx) {
         }
         Ok(())
     });
-    // The stub's `load` / `fetch_update` accept every AtomicOrdering (no `requires`); std panics on a Release or
-    // AcqRel load, and fetch_update's fetch ordering is a load ordering.
-    cx.check_n("hosttcp_atomic.rs::AtomicUsize::{load, fetch_update} (every AtomicOrdering the stub admits)", 64, |rng| {
+    // corrected: load requires o not in {Release, AcqRel}; fetch_update requires fo not in {Release, AcqRel}
+    cx.check("hosttcp_atomic.rs::AtomicUsize::{load, fetch_update} (every ordering the preconditions admit)", |rng| {
+        let v = rng.below(100);
+        let a = AtomicUsize::new(v);
+        let all = [AO::Relaxed, AO::Release, AO::Acquire, AO::AcqRel, AO::SeqCst];
+        let loads = [AO::Relaxed, AO::Acquire, AO::SeqCst];
+        let (o, so, fo) = (loads[rng.below(3)], all[rng.below(5)], loads[rng.below(3)]);
+        match panics(|| a.load(o)) {
+            Some(msg) => return Err(format!("load({o:?}) panics inside the precondition: {msg:?}")),
+            None => ensure!(a.load(o) == v, "load({o:?}) = {}, cell holds {v}", a.load(o)),
+        }
+        if let Some(msg) = panics(|| a.fetch_update(so, fo, |x| if x % 2 == 0 { Some(x + 1) } else { None })) {
+            return Err(format!("fetch_update({so:?}, {fo:?}, _) panics inside the precondition: {msg:?}"));
+        }
+        Ok(())
+    });
+    cx.check_n("hosttcp_atomic.rs::AtomicUsize::{load, fetch_update} (requires is tight: Release / AcqRel load orderings panic)", 64, |rng| {
         let a = AtomicUsize::new(rng.below(100));
         let all = [AO::Relaxed, AO::Release, AO::Acquire, AO::AcqRel, AO::SeqCst];
-        let (o1, o2) = (all[rng.below(5)], all[rng.below(5)]);
-        if let Some(msg) = panics(|| a.load(o1)) {
-            return Err(format!("load({o1:?}) panics in std ({msg:?}); the stub's load has no precondition on the ordering"));
-        }
-        if let Some(msg) = panics(|| a.fetch_update(o1, o2, |v| Some(v))) {
-            return Err(format!("fetch_update({o1:?}, {o2:?}, _) panics in std ({msg:?}); the stub has no precondition on the orderings"));
-        }
+        let bad = [AO::Release, AO::AcqRel][rng.below(2)];
+        ensure!(panics(|| a.load(bad)).is_some(), "load({bad:?}) does not panic");
+        let so = all[rng.below(5)];
+        ensure!(panics(|| a.fetch_update(so, bad, |x| Some(x))).is_some(), "fetch_update({so:?}, {bad:?}, _) does not panic");
         Ok(())
     });
     cx.check_n("hosttcp_atomic.rs::Mutex::lock (r is Ok: a mutex no holder panicked under)", 200, |rng| {
